@@ -104,6 +104,40 @@ def grad_costate(A, B, Q, p, x, u):
     return g, s
 
 
+def gradient_scales(A, B, c1, Q, p, x, u, u_round):
+    """Condition-aware magnitudes for the two gradient monitors, built from the norms of the true
+    transition products Phi(k, j) = A_{k-1} ... A_j (not from products of absolute values, which
+    overestimate non-normal systems by many orders of magnitude).
+
+    s[t]   round-off scale of dJ/du_t:  D_t + |B_t| sum_{k>t} |Phi(k,t+1)| D_k,
+           D_k = | |Q_k||tau_k| + |p_k| |_2
+    f[t]   how much dJ/du_t may legitimately differ between the returned states and the exact
+           open-loop roll-out of the returned inputs: the per-step round-off of the library's own
+           roll-out, u_round * (|A||x|+|B||u|+|c1|), propagated forward to every later state
+           (e_k) and from there into the gradient: |Q_t| e_t + |B_t| sum_{k>t} |Phi(k,t+1)| |Q_k| e_k.
+    """
+    T, m = u.shape
+    n = x.shape[1]
+    nrm = lambda M: np.linalg.norm(M, 2)
+    tau = np.concatenate((x[:T], u), axis=-1)
+    D = np.array([np.linalg.norm(np.abs(Q[k]) @ np.abs(tau[k]) + np.abs(p[k])) for k in range(T)])
+    mag = np.array([np.linalg.norm(np.abs(A[k]) @ np.abs(x[k]) + np.abs(B[k]) @ np.abs(u[k]) + np.abs(c1[k])) for k in range(T)])
+    # phi[k][j] = |Phi(k, j)|_2 for j <= k <= T
+    phi = np.zeros((T + 1, T + 1))
+    for j in range(T + 1):
+        P = np.eye(n)
+        phi[j, j] = 1.0
+        for k in range(j + 1, T + 1):
+            P = A[k - 1] @ P
+            phi[k, j] = nrm(P)
+    e = np.array([u_round * sum(phi[k, j + 1] * mag[j] for j in range(k)) for k in range(T)])
+    qn = np.array([nrm(Q[k]) for k in range(T)])
+    bn = np.array([nrm(B[k]) for k in range(T)])
+    s = np.array([D[t] + bn[t] * sum(phi[k, t + 1] * D[k] for k in range(t + 1, T)) for t in range(T)])
+    f = np.array([qn[t] * e[t] + bn[t] * sum(phi[k, t + 1] * qn[k] * e[k] for k in range(t + 1, T)) for t in range(T)])
+    return s, f
+
+
 def dense_optimum(A, B, c1, Q, p, x0):
     """Global minimiser by one dense solve.  z = stacked tau (T*(n+m)) = M u + z0 is affine in the
     stacked input; J = 1/2 z^T Qb z + pb^T z, so H = M^T Qb M, g0 = M^T (Qb z0 + pb).
